@@ -41,7 +41,13 @@ namespace OP2Utility::Stream
 	std::size_t FileReader::ReadPartial(void* buffer, std::size_t size) noexcept {
 		file.read(static_cast<char*>(buffer), size);
 		// Note: number of unformatted bytes read, up to size, must fit within a size_t
-		return static_cast<std::size_t>(file.gcount());
+		const auto bytesTransferred = static_cast<std::size_t>(file.gcount());
+		// Reaching the end of the file is the expected outcome of a partial read, not an error.
+		// Reset the eof/fail flags so the stream keeps a valid position and remains usable.
+		if (file.eof()) {
+			file.clear();
+		}
+		return bytesTransferred;
 	}
 
 	uint64_t FileReader::Length() {
